@@ -33,7 +33,7 @@ hashseeds = c08.hashseeds
 
 
 def generate(tier, seed, work, stats):
-    singles = c08.grammar_cases(tier, seed, work, stats, families(tier), [("upper", "ab"), ("alg", "ab"), ("upper", "ab")])
+    singles = c08.grammar_cases(tier, seed, work, stats, families(tier), [("upper", "ab"), ("alg", "ab"), ("upper", "ab"), ("int", "ab")])
     rnd = random.Random(seed)
     cases = []
     n = len(singles)
